@@ -28,8 +28,9 @@ def glob_escape(b):
 
 
 class OpRunner(object):
-    def __init__(self, w, seed=0, shim_extra=None, timeout=20.0):
+    def __init__(self, w, seed=0, shim_extra=None, timeout=20.0, td_spelling=None):
         self.w = w
+        self.td_spelling = td_spelling
         self.rnd = random.Random('ops|%s' % seed)
         self.shim_extra = shim_extra or {}
         self.timeout = timeout
@@ -58,6 +59,61 @@ class OpRunner(object):
 
     def neutral_cwd(self):
         return os.path.join(self.w.root, 'cwd')
+
+    # ---- --trash-dir ----------------------------------------------------------------
+    def _register(self, path):
+        """a path the harness itself adds to the sandbox becomes part of the reference snapshot (it must stay as it is)"""
+        w = self.w
+        rootb = os.fsencode(w.root)
+        pb = os.fsencode(path)
+        for rel, e in world.snapshot(pb).items():
+            full = pb if rel == b'.' else pb + b'/' + rel
+            w.baseline[full[len(rootb) + 1:]] = e
+
+    def spell_td(self, t, cwd_free=True, spelling=None):
+        """-> (--trash-dir argument, cwd or None, spelling name).  All spellings designate the same directory for the
+        file system; 'linkdotdot' designates ANOTHER, populated, trash directory for whoever collapses '..' lexically"""
+        w = self.w
+        p = w.tpath(t)
+        opts = ['abs', 'abs', 'abs', 'slash', 'dblslash', 'linkdotdot'] + (['rel', 'dotrel'] if cwd_free else [])
+        sp = spelling or self.td_spelling or self.rnd.choice(opts)
+        parent, name = os.path.split(p)
+        if sp == 'slash':
+            return p + '/', None, sp
+        if sp == 'dblslash':
+            return parent + '//' + name, None, sp
+        if sp == 'rel' and os.path.isdir(parent):
+            return name, parent, sp
+        if sp == 'dotrel' and os.path.isdir(parent):
+            return './' + name, parent, sp
+        if sp in ('linkdotdot', 'linkdotdotx') and os.path.isdir(parent):
+            # 'linkdotdot': the decoy lives on the volume of the real directory (a relative Path= means the same under both
+            # readings); 'linkdotdotx' (only on request): the decoy lives on ANOTHER volume, so that a lexical reading also
+            # gets the volume of the trash directory wrong - the same-volume gate of trash-put is what this one is for
+            sub = os.path.join(parent, '.tdsub')
+            if sp == 'linkdotdot':
+                x = os.path.join(parent, '.tdx-%s' % t.replace(':', '-'))
+            else:
+                here = w.vol_of_region(world.treg(t))
+                others = [r for r in w.cfg['mounted'] if r != here]
+                if not others:
+                    return p, None, 'abs'
+                x = os.path.join(w.rpath(others[0]), '.tdx-%s' % t.replace(':', '-'))
+            if not os.path.lexists(sub):
+                os.mkdir(sub)
+                self._register(sub)
+            if not os.path.lexists(x):
+                decoy = os.path.join(x, name)
+                os.makedirs(os.path.join(decoy, 'files', 'decoy-dir'))
+                os.makedirs(os.path.join(decoy, 'info'))
+                with open(os.path.join(decoy, 'files', 'decoy-dir', 'content'), 'w') as f:
+                    f.write('bystander')
+                with open(os.path.join(decoy, 'info', 'decoy-dir.trashinfo'), 'wb') as f:
+                    f.write(world.format_info(b'/bystander/decoy-dir', '1990-01-01T00:00:00'))
+                os.symlink(sub, os.path.join(x, 'L'))
+                self._register(x)
+            return os.path.join(x, 'L', '..', name), None, sp
+        return p, None, 'abs'
 
     # ---- put ----------------------------------------------------------------------
     def spell_entry(self, a, spelling=None):
@@ -162,7 +218,7 @@ class OpRunner(object):
         if o['inter'] != 'off':
             argv.append(self.rnd.choice(['-i', '--interactive']))
         if o['td'] != 'none':
-            argv += ['--trash-dir', w.tpath('c:' + o['td'])]
+            argv += ['--trash-dir', self.spell_td('c:' + o['td'], cwd_free=False)[0]]
         if o['hf']:
             argv.append('--home-fallback')
         v = verbose if verbose is not None else self.rnd.choice([0, 0, 1, 2])
@@ -279,9 +335,12 @@ class OpRunner(object):
     def list(self, lab, state, shim_kw=None):
         w = self.w
         argv = []
+        cwd = self.neutral_cwd()
         if lab['td'] != 'none':
-            argv += ['--trash-dir', w.tpath('c:' + lab['td'])]
-        res = self._run('trash-list', argv, self.neutral_cwd(), shim_kw=shim_kw)
+            tdarg, c, tdsp = self.spell_td('c:' + lab['td'])
+            cwd = c or cwd
+            argv += ['--trash-dir', tdarg]
+        res = self._run('trash-list', argv, cwd, shim_kw=shim_kw)
         lines = []
         bad = []
         for prefix, loc, raw in self.parse_records(res['stdout']):
@@ -315,7 +374,7 @@ class OpRunner(object):
         if lab['ow']:
             argv.append('--overwrite')
         if lab['td'] != 'none':
-            argv += ['--trash-dir', w.tpath('c:' + lab['td'])]
+            argv += ['--trash-dir', self.spell_td('c:' + lab['td'], cwd_free=False)[0]]
         cwd = self.neutral_cwd()
         if f['k'] == 'root':
             if self.rnd.random() < 0.5:
@@ -400,8 +459,12 @@ class OpRunner(object):
             stdin = self.rnd.choice(pool)
         if o['dry']:
             argv.append('--dry-run')
+        cwd = self.neutral_cwd()
+        tdsp = None
         if o['td'] != 'none':
-            argv += ['--trash-dir', w.tpath('c:' + o['td'])]
+            tdarg, c, tdsp = self.spell_td('c:' + o['td'])
+            cwd = c or cwd
+            argv += ['--trash-dir', tdarg]
         if self.rnd.random() < 0.25:
             argv.append('-v')
         if o['days'] != -1:
@@ -410,36 +473,43 @@ class OpRunner(object):
         now_tick = state['clock']
         if w.conc.clock_via_env:
             env['TRASH_DATE'] = w.conc.date_str(state['clock'])
-        res = self._run('trash-empty', argv, self.neutral_cwd(), stdin=stdin, env_extra=env, now_tick=now_tick,
+        res = self._run('trash-empty', argv, cwd, stdin=stdin, env_extra=env, now_tick=now_tick,
                         tty=tty, shim_kw=shim_kw)
+        res['td_spelling'] = tdsp
         printed = []
         bad = []
         if o['dry']:
             for line in res['stdout'].split(b'\n'):
                 pass
-            printed, bad = self.parse_trash_paths(res['stdout'], slots)
+            alt = {}
+            if o['td'] != 'none':
+                a = os.fsencode(tdarg)
+                alt['c:' + o['td']] = sorted(set([a, a.rstrip(b'/'), os.path.join(os.fsencode(cwd), a), os.path.join(os.fsencode(cwd), a.rstrip(b'/'))]))
+            printed, bad = self.parse_trash_paths(res['stdout'], slots, alt)
         obs = {'exit': runner.exit_class(res), 'printed': printed, 'unparsed': bad}
         return obs, res
 
-    def parse_trash_paths(self, text, slots):
-        """find the trash-internal paths mentioned at the end of records -> [t, part, ref]"""
+    def parse_trash_paths(self, text, slots, alt=None):
+        """find the trash-internal paths mentioned at the end of records -> [t, part, ref].
+        alt: {t: [other spellings of the trash directory the command may print (as given on the command line)]}"""
         w = self.w
         cands = {}
+        alt = alt or {}
         for (t, slot), (kind, ident) in slots.items():
-            tp = os.fsencode(w.tpath(t))
-            if kind in ('item', 'orph'):
-                cands[tp + b'/files/' + slot] = {'t': t, 'part': 'files', 'ref': ident}
-            if kind == 'item':
-                cands[tp + b'/info/' + slot + b'.trashinfo'] = {'t': t, 'part': 'info', 'ref': ident}
-            if kind in ('stray', 'junk'):
-                cands[tp + b'/info/' + slot + b'.trashinfo'] = {'t': t, 'part': 'info', 'ref': -ident}
-                cands[tp + b'/files/' + slot] = {'t': t, 'part': 'files', 'ref': -ident}
+            for tp in [os.fsencode(w.tpath(t))] + list(alt.get(t, [])):
+                if kind in ('item', 'orph'):
+                    cands[tp + b'/files/' + slot] = {'t': t, 'part': 'files', 'ref': ident}
+                if kind == 'item':
+                    cands[tp + b'/info/' + slot + b'.trashinfo'] = {'t': t, 'part': 'info', 'ref': ident}
+                if kind in ('stray', 'junk'):
+                    cands[tp + b'/info/' + slot + b'.trashinfo'] = {'t': t, 'part': 'info', 'ref': -ident}
+                    cands[tp + b'/files/' + slot] = {'t': t, 'part': 'files', 'ref': -ident}
         out = []
         bad = []
         # layout tolerant: a record names a path at its end; lines that name nothing inside a trash
         # directory (prompts, headings) are ignored
         keys = sorted(cands, key=len, reverse=True)
-        marks = [os.fsencode(w.tpath(t)) for t in world.tdir_ids()]
+        marks = [os.fsencode(w.tpath(t)) for t in world.tdir_ids()] + [x for v in alt.values() for x in v]
         pos = 0
         while pos < len(text):
             best = None
